@@ -167,7 +167,39 @@ async def run_all(problems):
         a = await s.enqueue_task("a", "exit 0", str(d), None, [])
         return {a: L.FAILED}
 
+    async def late_dependents(s, d):
+        # dependents submitted AFTER their dependency has ended without success must never start (C11, C07)
+        a = await s.enqueue_task("a", "exit 1", str(d), None, [])
+        k = await s.enqueue_task("k", "sleep 5", str(d), 0.2, [])
+        x = await s.enqueue_task("x", "sleep 5", str(d), None, [])
+        await asyncio.sleep(0.1)
+        await s.cancel_task(x)
+        await settle(s, [a, k, x])
+        sib = await s.enqueue_task("sib", "sleep 0.3", str(d), None, [])
+        la = await s.enqueue_task("la", "touch la.ran", str(d), None, [a])
+        lk = await s.enqueue_task("lk", "touch lk.ran", str(d), None, [k])
+        lx = await s.enqueue_task("lx", "touch lx.ran", str(d), None, [x])
+        ls = await s.enqueue_task("ls", "touch ls.ran", str(d), None, [sib, a])
+        await settle(s, [sib, la, lk, lx, ls])
+        ran = sorted(p_.name for p_ in d.glob("*.ran"))
+        if ran:
+            problems.append(f"late dependents: {ran} were started although a dependency had already ended FAILED / KILLED / "
+                            f"CANCELLED when they were submitted")
+        return {a: L.FAILED, k: L.KILLED, x: L.CANCELLED, sib: L.COMPLETED, la: L.FAILED, lk: (L.KILLED, L.FAILED),
+                lx: (L.CANCELLED, L.FAILED), ls: L.FAILED}
+
+    async def signalled(s, d):
+        # a task whose shell dies from a signal did not succeed (asyncio reports -N): FAILED, dependents do not run
+        a = await s.enqueue_task("a", "kill -SEGV $$", str(d), None, [])
+        b = await s.enqueue_task("b", "touch b.ran", str(d), None, [a])
+        await settle(s, [a, b])
+        if (d / "b.ran").exists():
+            problems.append("signal: the dependent of a task killed by SIGSEGV was started")
+        return {a: L.FAILED, b: L.FAILED}
+
     for name, cores, fn in (("success+log", 2, ok), ("dependency order", 2, order),
+                            ("dependents submitted after the dependency ended badly", 2, late_dependents),
+                            ("task killed by a signal", 1, signalled),
                             ("failed dependency then two tasks on one core", 1, fail_then_more),
                             ("missing working directory", 1, missing_dir), ("unknown dependency id", 1, unknown_dep),
                             ("cancel while waiting for a dependency, then two tasks on one core", 1, cancel_waiting),
@@ -194,7 +226,7 @@ def replay(eng, ob, model, seed):
     finally:
         logging.disable(logging.NOTSET)
     if not problems:
-        return {"failed_on_real_code": False, "candidates_tried": 13, "bound": "13 fixed scenarios, <= 5 tasks, 1-2 cores"}
+        return {"failed_on_real_code": False, "candidates_tried": 15, "bound": "15 fixed scenarios, <= 9 tasks, 1-2 cores"}
     p = " ".join(problems)
     wc = "core-semaphore-over-released" if "semaphore holds" in p or "RUNNING at once" in p else (
         "task-left-in-non-final-state" if "is left in state" in p else "local-other")
@@ -203,61 +235,96 @@ def replay(eng, ob, model, seed):
             "call": "gwf.backends.local.Scheduler(...) with real shell processes under asyncio"}
 
 
-async def server_case(problems):
-    """C14: misbehaving clients next to a healthy one, over real sockets"""
+def server_case(problems):
+    """C14: misbehaving clients next to a healthy one, over real sockets. The pool (real Scheduler + Server) runs in its
+    own thread and event loop; the clients are plain blocking sockets with time-outs, so a pool that stops answering
+    (for instance because a handler spins on a dead connection) is observed as a time-out instead of hanging the check."""
     import json
-    from gwf.backends.local import Scheduler, Server, LocalStatus as L
+    import socket
+    import threading
+    from gwf.backends.local import Scheduler, Server
     d = pathlib.Path(tempfile.mkdtemp(prefix="gwfverif-"))
-    try:
-        (d / ".gwf" / "logs").mkdir(parents=True)
-        s = Scheduler(working_dir=d, max_cores=2)
-        srv = Server(s)
-        srv.server = await asyncio.start_server(srv.handle_connection, "127.0.0.1", 0)
-        port = srv.server.sockets[0].getsockname()[1]
+    (d / ".gwf" / "logs").mkdir(parents=True)
+    ready, box = threading.Event(), {}
 
-        async def talk(lines, read=0, close=True):
-            r, w = await asyncio.open_connection("127.0.0.1", port)
-            out = []
+    def pool():
+        loop = asyncio.new_event_loop()
+        asyncio.set_event_loop(loop)
+        loop.set_exception_handler(lambda l, c: None)      # handler exceptions of bad clients are expected
+
+        async def start():
+            s = Scheduler(working_dir=d, max_cores=2)
+            srv = Server(s)
+            srv.server = await asyncio.start_server(srv.handle_connection, "127.0.0.1", 0)
+            box["port"] = srv.server.sockets[0].getsockname()[1]
+            box["srv"] = srv
+            ready.set()
+
+        loop.run_until_complete(start())
+        loop.run_forever()
+
+    threading.Thread(target=pool, daemon=True).start()
+    if not ready.wait(10):
+        problems.append("server: the pool did not start")
+        return
+    port = box["port"]
+
+    class Dead(Exception):
+        pass
+
+    def talk(lines, read=0, close=True):
+        try:
+            sock = socket.create_connection(("127.0.0.1", port), timeout=15)
+        except OSError as e:
+            raise Dead(f"connection refused / timed out ({e})")
+        sock.settimeout(15)
+        f = sock.makefile("rwb")
+        out = []
+        try:
             for l in lines:
-                w.write(l)
-                await w.drain()
+                f.write(l)
+                f.flush()
             for _ in range(read):
-                out.append(json.loads(await asyncio.wait_for(r.readline(), 3)))
+                line = f.readline()
+                if not line:
+                    raise Dead("the pool closed the connection without answering")
+                out.append(json.loads(line))
+        except socket.timeout:
+            raise Dead("no answer within 15 s")
+        finally:
             if close:
-                w.close()
-            return out
+                try:
+                    sock.close()
+                except OSError:
+                    pass
+        return out
 
-        def enq(name, script, deps=()):
-            return (json.dumps({"__kind__": "enqueue_task", "name": name, "script": script, "time_limit": None,
-                                "working_dir": str(d), "deps": list(deps)}) + "\n").encode()
+    def enq(name, script, deps=()):
+        return (json.dumps({"__kind__": "enqueue_task", "name": name, "script": script, "time_limit": None,
+                            "working_dir": str(d), "deps": list(deps)}) + "\n").encode()
 
-        good = await talk([enq("a", "sleep 0.3")], read=1)
+    def msg(kind, **kw):
+        return (json.dumps(dict({"__kind__": kind}, **kw)) + "\n").encode()
+
+    try:
+        good = talk([enq("a", "sleep 0.3")], read=1)
         ta = good[0]["tid"]
-        bads = [[b"not json\n"], [b"[1, 2]\n"], [b'{"__kind__": "cancel_task", "tid": 999}\n'],
-                [b'{"__kind__": "enqueue_task"}\n'], [b'{"__kind__": "nosuch", "x": 1}\n'], [b'{"no_kind": 1}\n'], [],
-                [b'{"__kind__": "get_task_state"}\n'], [b'{"__kind__": "cancel_task", "tid": "7"}\n'],
-                [b'{"__kind__": "cancel_task", "tid": null}\n'], [b'{"__kind__": "enqueue_task", "name": "half'],
+        bads = [[b"not json\n"], [b"[1, 2]\n"], [msg("cancel_task", tid=999)], [b'{"__kind__": "enqueue_task"}\n'],
+                [b'{"__kind__": "nosuch", "x": 1}\n'], [b'{"no_kind": 1}\n'], [], [b'{"__kind__": "get_task_state"}\n'],
+                [msg("cancel_task", tid="7")], [msg("cancel_task", tid=None)], [b'{"__kind__": "enqueue_task", "name": "half'],
                 # ids close to the ones handed out so far, never handed out themselves
-                [(json.dumps({"__kind__": "cancel_task", "tid": ta + 2}) + "\n").encode()],
-                [(json.dumps({"__kind__": "cancel_task", "tid": ta + 4}) + "\n").encode()],
-                [(json.dumps({"__kind__": "get_task_state", "tid": ta + 3}) + "\n").encode()]]
+                [msg("cancel_task", tid=ta + 2)], [msg("cancel_task", tid=ta + 4)], [msg("get_task_state", tid=ta + 3)]]
         for bad in bads:
-            await talk(bad)
-            await asyncio.sleep(0.02)
-        if not srv.server.is_serving():
-            problems.append("server: stopped serving after malformed / incomplete / unknown requests")
-            return
-        await talk([(json.dumps({"__kind__": "cancel_task", "tid": ta}) + "\n").encode()])
-        await asyncio.sleep(0.05)
-        if not srv.server.is_serving():
-            problems.append("server: stopped serving after a cancel_task request")
-            return
+            talk(bad)                       # ... and the connection is dropped without a `close` request
+            time.sleep(0.02)
+        talk([msg("cancel_task", tid=ta)])
+        time.sleep(0.05)
         accepted = {ta: ("a", "CANCELLED")}
         order = [ta]
         more = [("b", "exit 0", [ta], "CANCELLED"), ("c", "exit 0", [], "COMPLETED"), ("d", "exit 3", [], "FAILED"),
                 ("e", "exit 0", [], "COMPLETED"), ("f", "exit 1", [], "FAILED"), ("g", "exit 0", [], "COMPLETED")]
         for name, script, deps, final_state in more:
-            r = await talk([enq(name, script, deps)], read=1)
+            r = talk([enq(name, script, deps)], read=1)
             tid = r[0]["tid"]
             if tid in accepted:
                 problems.append(f"server: task {name!r} was given id {tid}, already the id of task {accepted[tid][0]!r} "
@@ -265,24 +332,24 @@ async def server_case(problems):
                 return
             accepted[tid] = (name, final_state)
             order.append(tid)
-            # a misbehaving client between two accepted tasks
-            await talk([(json.dumps({"__kind__": "cancel_task", "tid": tid + 2}) + "\n").encode()])
-        ids = order
-        await settle(s, ids)
-        st = await talk([b'{"__kind__": "get_task_states"}\n'], read=1)
-        got = {(int(k) if k.lstrip("-").isdigit() else k): v for k, v in st[0]["tasks"].items()}
+            talk([msg("cancel_task", tid=tid + 2)])      # a misbehaving client between two accepted tasks
         want = {k: v[1] for k, v in accepted.items()}
+        deadline, got = time.time() + 40, None
+        while time.time() < deadline:
+            st = talk([msg("get_task_states")], read=1)
+            got = {(int(k) if k.lstrip("-").isdigit() else k): v for k, v in st[0]["tasks"].items()}
+            if all(got.get(t) in ("COMPLETED", "FAILED", "CANCELLED", "KILLED") for t in order):
+                break
+            time.sleep(0.1)
         if got != want:
             problems.append(f"server: state query returned {got}; the accepted tasks and their true final states are {want}")
-        for t in ids:
-            one = await talk([(json.dumps({"__kind__": "get_task_state", "tid": t}) + "\n").encode()], read=1)
+        for t in order:
+            one = talk([msg("get_task_state", tid=t)], read=1)
             if one[0].get("state") != want[t]:
                 problems.append(f"server: get_task_state({t}) answered {one[0]}, task {accepted[t][0]!r} ended {want[t]}")
-        for t in ids:
-            if not final(s.task_states[t]):
-                problems.append(f"server: accepted task {t} did not reach a final state next to misbehaving clients")
-        srv.server.close()
-        await srv.server.wait_closed()
+    except Dead as e:
+        problems.append(f"server: after misbehaving clients (malformed / incomplete requests, connections dropped without "
+                        f"`close`) the pool no longer serves a well-behaved client: {e}")
     finally:
         shutil.rmtree(d, ignore_errors=True)
 
@@ -292,10 +359,7 @@ def replay_server(eng, ob, model, seed):
     problems = []
     logging.disable(logging.CRITICAL)
     try:
-        loop = asyncio.new_event_loop()
-        loop.set_exception_handler(lambda l, c: None)      # handler exceptions of bad clients are expected
-        loop.run_until_complete(asyncio.wait_for(server_case(problems), 30))
-        loop.close()
+        server_case(problems)
     except Exception as e:
         problems.append(f"server scenario raised {type(e).__name__}: {e}")
     finally:
@@ -346,7 +410,11 @@ async def restart_case(problems):
         # the pool is started again (gwf workers), a second target is submitted by a later invocation
         s2, srv2, port2 = await pool()
         _, tracked2 = await loop.run_in_executor(None, invocation, port2, (B,), ())
-        await asyncio.sleep(0.2)
+        from gwf.backends.local import LocalStatus as L_
+        for _ in range(200):                      # until B's process has started (load must not matter)
+            if any(v == L_.RUNNING for v in s2.task_states.values()):
+                break
+            await asyncio.sleep(0.05)
         st, tracked3 = await loop.run_in_executor(None, invocation, port2, (), (A, B))
         if tracked3.get("A") == tracked3.get("B"):
             problems.append(f"restart: after a restart of the worker pool targets A and B are tracked under the same job id "
